@@ -17,7 +17,7 @@ let show_ev = function
   | EvFin c -> Some ("fin:" ^ ni c)
   | EvConnClose s -> Some ("cclose:" ^ ni s)
   | EvHack _ -> None
-  | EvWant | EvStopReq | EvCycle -> None
+  | EvWant | EvStopReq | EvCycle _ -> None
 let kst_code = function KDisconnected -> 0 | KConnecting -> 1 | KConnected -> 2
 let cst_code = function CDisconnected -> 0 | CConnecting -> 1 | CConnected -> 2 | CDisconnecting -> 3
 let join l = if l = [] then "-" else String.concat "," l
